@@ -334,6 +334,28 @@ def c065(ctx):
     ctx.check(R, "lsmtk::kvs::KeyValueStore", "timestamp-field", len(fields) == 1,
               "load and range_scan take their timestamp from one state field: %s" % sorted(fields),
               "readers take their timestamp from %s" % sorted(fields))
+    # at open everything that survived is complete: the snapshot starts at the allocation counter, which lies above every timestamp of the
+    # tree and of the replayed logs -- not below it (the counter's own derivation, max with tree.max_timestamp(), has no `+ 1` on that arm)
+    o = ctx.fn(R, KVS + "open")
+    if o and fields:
+        aggs = [(b.idx, i) for b in o.blocks for i, st in enumerate(b.st) if st["s"] == "=" and st["rv"].get("r") == "agg"
+                and (st["rv"].get("adt") or "").endswith("kvs::KeyValueStoreState")]
+        ctx.floor(R, "KeyValueStore::open: state constructions", len(aggs), 1)
+        for pt in aggs:
+            rv = o.blocks[pt[0]].st[pt[1]]["rv"]
+            for fld in sorted(fields):
+                if fld not in rv["fields"]:
+                    continue
+                op = rv["ops"][rv["fields"].index(fld)]
+                sl, _ = P.value_slice(o, op)
+                from_tree = any(x["k"] == "call" and x["callee"].endswith("LsmTree::max_timestamp") for x in sl)
+                lowered = any(x["k"] == "bin" and x["op"].startswith("Sub") for x in sl)
+                same_as_counter = "seq_no" in rv["fields"] and K.root_local(o, op) is not None and \
+                    K.root_local(o, op) == K.root_local(o, rv["ops"][rv["fields"].index("seq_no")])
+                ctx.check(R, o, "open-snapshot-covers-recovered", from_tree and not lowered and same_as_counter,
+                          "at open the readers' snapshot is the allocation counter (which is at least tree.max_timestamp())",
+                          "KeyValueStore::open starts the readers' snapshot (%s) below or apart from the allocation counter: a read issued before the first "
+                          "write of this incarnation misses the newest recovered batch (when it lives only in the tree, mem_seq_no equals its timestamp)" % fld, pt=pt)
     f = ctx.fn(R, KVS + "write")
     if not f or not fields:
         return
